@@ -984,5 +984,14 @@ def task_dipole_covariance(ctx):
     ctx.assume_note("density restricted by the packing invariant; hybridisation arm lengths (dd_qq) are rotation-invariant atom constants (stub)")
 
 
-TASKS_QUICK = ["rotq", "rotq_jacobian", "w_rotation", "overlap_assembly_d", "overlap_assembly_sp", "overlap_assembly_quat", "rotd_prologue", "rotd_tables", "rotd_apply", "rotd_core", "dipole_covariance"]
+def task_nac_operators(ctx):
+    """Nonadiabatic coupling vectors: nac.py's derivative operators contracted with a symmetric transition density equal
+    sum_(mu nu) B_(mu nu) dF_(mu nu)/dX with the real fock (contract in C01_forces.nac_contraction): a trace over all Cartesian p
+    components, hence covariant whenever the integral derivatives are."""
+    from contracts.C01_forces import nac_contraction
+
+    nac_contraction(ctx, False)
+
+
+TASKS_QUICK = ["rotq", "rotq_jacobian", "w_rotation", "overlap_assembly_d", "overlap_assembly_sp", "overlap_assembly_quat", "rotd_prologue", "rotd_tables", "rotd_apply", "rotd_core", "dipole_covariance", "nac_operators"]
 TASKS_THOROUGH = TASKS_QUICK
